@@ -239,17 +239,28 @@ def fixed_initialize(U):
     def body(it):
         seq = _Seq(it)
         t = z3.Real("t")
-        obj = Instance(_cls(it, "FixedInterrupts"), {"interrupts": seq.instance()})
+        # the object may have been used before (a tracker object used for a second run): any earlier position
+        obj = Instance(_cls(it, "FixedInterrupts"), {"interrupts": seq.instance(), "_index": z3.Int("position_left_by_an_earlier_run")})
         calls = []
-        it.contracts[(MOD, "FixedInterrupts.next")] = lambda interp, args, kw: calls.append((to_z3(args[0].attrs["_index"]), args[1])) or z3.Real("next_result")
+
+        def next_(interp, args, kw):
+            idx = args[0].attrs.get("_index")
+            calls.append((to_z3(idx) if idx is not None else None, args[1]))
+            return z3.Real("next_result")
+
+        it.contracts[(MOD, "FixedInterrupts.next")] = next_
         r = it.call(it.getattr(obj, "initialize"), [t], {})
         return r, calls, t
 
     for p, res in enumerate(explore_paths(U, body)):
         P = prem_of(res.ctx)
+        if res.outcome != "return":
+            U.prove(f"Fixed.initialize.path{p}.returns_normally", P, z3.BoolVal(False), info={"exc": str(res.exc)})
+            continue
         r, calls, t = res.value
-        U.prove(f"Fixed.initialize.path{p}.is_next_from_index_-1", P,
-                z3.And(z3.BoolVal(len(calls) == 1), calls[0][0] == -1, to_z3(calls[0][1]) == t, to_z3(r) == z3.Real("next_result")) if calls else z3.BoolVal(False))
+        ok = len(calls) == 1 and calls[0][0] is not None
+        U.prove(f"Fixed.initialize.path{p}.is_next_from_the_start_of_the_list_(index_-1)_whatever_happened_before", P,
+                z3.And(calls[0][0] == -1, to_z3(calls[0][1]) == t, to_z3(r) == z3.Real("next_result")) if ok else z3.BoolVal(False))
 
 
 # ------------------------------------------------------------------ GeometricInterrupts
